@@ -9,6 +9,9 @@ Correspondence (every run): for every generated ITS graph
   extract_k(its, k)      == model `its.extractK`  for k = 0..3 (node/edge sets with all ITS labels)
   get_rc(get_rc(its))    == model `its.rc` of the implementation's centre, and == get_rc(its)
   centre of a renumbered reaction / relabelled ITS  ~  centre   (Lean `match.iso`)
+  extract_k(its, -1), context_extraction, paralle_context_extraction  == model distance balls (see `aux_cases`)
+  find_unequal_order_edges(its)  == atoms of the changed bonds of the model centre (well-formed ITS)
+  rsmi_to_its(rsmi, core=True, options)  == model centre of the ITS of that reaction (see `entry_cases`)
 On a divergence the specification itself is evaluated on the implementation's output
 (`spec.its.rc` in Lean; distance balls by NetworkX shortest paths) to decide between a VIOLATION with
 that input and a broken correspondence.
@@ -249,24 +252,394 @@ def iso_cases(ctx, pairs, tag):
 
 
 def options_cases(ctx, cases, tag):
-    """get_rc with non-default options: implementation == model (the options are modelled as parameters)."""
+    """get_rc with non-default options: implementation == model (the options are modelled as parameters).  With
+    bond_key / standard_key the ITS carries its bond attributes under those names; the result must also be the default
+    centre with the two attributes renamed (model on the un-renamed ITS)."""
     reqs, keep = [], []
     for its, opts in cases:
-        I0 = enc(its)
+        bk, sk = opts.get("bond_key", "order"), opts.get("standard_key", "standard_order")
+        renamed = (bk, sk) != ("order", "standard_order")
+        its_o = rename_edge_keys(its, bk, sk) if renamed else its
+        I0 = enc(its_o)
         try:
-            rc = impl_rc(its, **opts)
+            rc = impl_rc(its_o, **opts)
         except Exception as e:
             ctx.count(f"{tag}:impl-raises:{type(e).__name__}")
             continue
-        keep.append((I0, opts, enc(rc)))
+        keep.append((I0, opts, enc(rc), renamed, len(reqs)))
         reqs.append({"cmd": "its.rc", "its": I0, **opts})
-    for (I0, opts, R0), m in zip(keep, ctx.lean().ok(reqs, shards=8)):
+        if renamed:
+            reqs.append({"cmd": "its.rc", "its": enc(its), **{k: v for k, v in opts.items() if k not in ("bond_key", "standard_key")}})
+    reps = ctx.lean().ok(reqs, shards=8)
+    for I0, opts, R0, renamed, at in keep:
+        if len(ctx.violations) >= 6:
+            return
+        m = reps[at]
         keys = opts.get("element_key", RC_KEYS)
+        ek = [opts.get("bond_key", "order"), opts.get("standard_key", "standard_order")]
         ctx.case([I0, opts], len(R0["nodes"]) >= 2)
         ctx.count(f"{tag}:cases")
-        a, b = canon(R0, keys, RC_EDGE_KEYS), canon(m, keys, RC_EDGE_KEYS)
+        for o in sorted(opts):
+            ctx.count(f"{tag}:option:{o}")
+        a, b = canon(R0, keys, ek), canon(m, keys, ek)
         if a != b:
             ctx.violation("get_rc with options differs from the model", {"stream": tag, "its": I0, "options": opts}, {"diff": first_diff(a, b)}, no_input=True)
+        elif renamed and a != canon(reps[at + 1], keys, RC_EDGE_KEYS):
+            ctx.violation("get_rc with bond_key/standard_key is not the centre of the same ITS under the default attribute names",
+                          {"stream": tag, "its": I0, "options": opts}, {"diff": first_diff(a, canon(reps[at + 1], keys, RC_EDGE_KEYS))}, no_input=True)
+
+
+# ------------------------------------------------------------------ further documented entry points (anchor coverage)
+#   RadiusExpand.extract_k(its, -1)                 radius chosen by the code (longest unchanged-bond extension)
+#   RadiusExpand.context_extraction / paralle_context_extraction   (dict wrappers around extract_k, non-default keys)
+#   RadiusExpand.find_unequal_order_edges            (atoms of the changed bonds)
+#   rsmi_to_its(rsmi, core=True, ...)                (the centre straight from a reaction SMILES)
+AUX_MAX_NODES = 160
+CTX_KEYS = [("ITS", "K"), ("ITS", "K"), ("graph", "context"), ("its", "rc+k")]
+
+
+def impl_unequal(its):
+    from synkit.Graph.Context.radius_expand import RadiusExpand
+    return RadiusExpand.find_unequal_order_edges(its)
+
+
+def impl_context_extraction(its, its_key, context_key, k):
+    from synkit.Graph.Context.radius_expand import RadiusExpand
+    data = {"R-id": "x", its_key: its}
+    return RadiusExpand.context_extraction(data, its_key, context_key, k)[context_key]
+
+
+def impl_parallel_contexts(graphs, its_key, context_key, k):
+    from synkit.Graph.Context.radius_expand import RadiusExpand
+    out = RadiusExpand.paralle_context_extraction([{its_key: g, "R-id": i} for i, g in enumerate(graphs)], its_key, context_key, 1, 0, k)
+    return [d[context_key] for d in out]
+
+
+def wf_its(its):
+    """Every bond carries an order pair of numbers and standard_order == order[0] - order[1] (Lean `WFits`, edge part)."""
+    for _, _, d in its.edges(data=True):
+        o, s = d.get("order"), d.get("standard_order")
+        if not (isinstance(o, tuple) and len(o) == 2 and all(isinstance(x, (int, float)) and not isinstance(x, bool) for x in o)):
+            return False
+        if isinstance(s, bool) or not isinstance(s, (int, float)) or s != o[0] - o[1]:
+            return False
+    return True
+
+
+def changed_endpoints(m_rc):
+    """Atoms incident to the bonds of the MODEL centre whose two orders differ."""
+    out = set()
+    for u, v, a in m_rc["edges"]:
+        o = graphio.unval(a.get("order"))
+        if isinstance(o, tuple) and len(o) == 2 and o[0] != o[1]:
+            out.update((u, v))
+    return out
+
+
+def ball_radius(its, seeds, nodes):
+    """Largest distance (in bonds, computed here by breadth-first search) from the seed set to one of `nodes`;
+    None when some node cannot be reached from the seeds at all."""
+    dist = nx.multi_source_dijkstra_path_length(its, set(seeds), weight=None) if seeds else {}
+    r = 0
+    for n in nodes:
+        if n not in dist:
+            return None
+        r = max(r, dist[n])
+    return r
+
+
+def free_radius_need(its, K, m_rc):
+    """-> (verdict, r): verdict is a description when K already fails without a model ball, "" when it passes without one
+    (radius 0: the centre itself), None when K has to be compared with the model's radius-r context."""
+    seeds = {n for n, _ in m_rc["nodes"]}
+    if not seeds <= set(K.nodes):
+        return f"centre atoms {sorted(seeds - set(K.nodes))[:5]} are missing from the context", None
+    r = ball_radius(its, seeds, K.nodes)
+    if r is None:
+        return "the context contains atoms that are not connected to the centre", None
+    if r == 0 and canon(enc(K), RC_KEYS, RC_EDGE_KEYS) == canon(m_rc, RC_KEYS, RC_EDGE_KEYS):
+        return "", 0
+    return None, max(r, 1)
+
+
+def free_radius_compare(K, r, m_ball):
+    x, y = canon(enc(K), ITS_NODE_KEYS, ITS_EDGE_KEYS), canon(m_ball, ITS_NODE_KEYS, ITS_EDGE_KEYS)
+    if x != y:
+        return f"its farthest atom is within {r} bonds of the centre, but it is not the radius-{r} context: " + first_diff(x, y)
+    return None
+
+
+def free_radius_verdict(ctx, its, I0, K, m_rc):
+    """extract_k(its, -1): the property does not fix the radius the code picks, only that a radius-k context is exactly
+    the atoms within k bonds of the centre.  K is a distance ball around the centre iff it equals the ball whose radius
+    is the distance of its farthest atom; that ball comes from the Lean model.  -> None | description."""
+    why, r = free_radius_need(its, K, m_rc)
+    if why is not None:
+        return why or None
+    return free_radius_compare(K, r, ctx.lean().ok([{"cmd": "its.extractK", "its": I0, "k": r}])[0])
+
+
+def aux_cases(ctx, cases, tag, all_params=False):
+    """cases: list of (its, meta).  The remaining public routes into the centre / context code."""
+    keep, reqs = [], []
+    chunk, chunks = [], []
+    for its, meta in cases:
+        if len(its) > AUX_MAX_NODES:
+            ctx.count(f"{tag}:aux:skipped-large")
+            continue
+        chunk.append((its, meta))
+        if len(chunk) == 20:
+            chunks.append(chunk)
+            chunk = []
+    if chunk:
+        chunks.append(chunk)
+    for chunk in chunks:
+        pks = [0, 1, 2, 3] if all_params else [ctx.rnd.choice([0, 1, 1, 2, 3])]
+        pkeys = ctx.rnd.choice(CTX_KEYS)
+        par = {}
+        for pk in pks:
+            try:
+                par[pk] = impl_parallel_contexts([g for g, _ in chunk], pkeys[0], pkeys[1], pk)
+            except Exception as e:
+                ctx.violation("paralle_context_extraction raises on ITS graphs", {"stream": tag, "its": enc(chunk[0][0]), "aux": "parallel", "n_knn": pk},
+                              {"error": repr(e)[:300], "chunk": len(chunk)}, no_input=len(chunk) > 1)
+                return
+        for i, (its, meta) in enumerate(chunk):
+            I0 = enc(its)
+            cks = [0, 1, 2, 3] if all_params else [ctx.rnd.choice([0, 1, 2, 3])]
+            ckeys = ctx.rnd.choice(CTX_KEYS)
+            try:
+                Km1 = impl_k(its, -1)
+                fu = impl_unequal(its)
+                ce = {k: impl_context_extraction(its, ckeys[0], ckeys[1], k) for k in cks}
+            except Exception as e:
+                ctx.violation("extract_k(-1) / context_extraction / find_unequal_order_edges raises on an ITS graph",
+                              {"stream": tag, "its": I0, "meta": meta, "aux": "raise"}, {"error": repr(e)[:300]})
+                continue
+            if enc(its) != I0:
+                ctx.violation("a context entry point mutated the ITS", {"stream": tag, "its": I0, "meta": meta, "aux": "mutated"})
+            ks = sorted(set(cks) | set(pks))
+            keep.append((its, I0, meta, Km1, fu, ce, {k: par[k][i] for k in pks}, ks, len(reqs), ckeys, pkeys))
+            reqs.append({"cmd": "its.rc", "its": I0})
+            for k in ks:
+                if k >= 1:
+                    reqs.append({"cmd": "its.extractK", "its": I0, "k": k})
+    reps = ctx.lean().ok(reqs, shards=8)
+    models, second = [], []
+    for its, I0, meta, Km1, fu, ce, pa, ks, at, ckeys, pkeys in keep:
+        model = {0: reps[at]}
+        j = at + 1
+        for k in ks:
+            if k >= 1:
+                model[k] = reps[j]
+                j += 1
+        need = free_radius_need(its, Km1, reps[at])
+        if need[0] is None and need[1] not in model:
+            model[need[1]] = len(second)                       # filled in below
+            second.append({"cmd": "its.extractK", "its": I0, "k": need[1]})
+            need = need + (True,)
+        models.append((model, need))
+    reps2 = ctx.lean().ok(second, shards=8) if second else []
+    for (its, I0, meta, Km1, fu, ce, pa, ks, at, ckeys, pkeys), (model, need) in zip(keep, models):
+        if len(ctx.violations) >= 6:
+            return
+        m_rc = model[0]
+        if len(need) == 3:
+            model[need[1]] = reps2[model[need[1]]]
+        case = {"stream": tag, "its": I0, "meta": meta}
+        seeds = {n for n, _ in m_rc["nodes"]}
+        ctx.case(["aux", I0], len(seeds) >= 2 and len(its) > len(seeds))
+        ctx.count(f"{tag}:aux:cases")
+        # (1) free-radius mode
+        r = ball_radius(its, seeds, Km1.nodes) if seeds <= set(Km1.nodes) else None
+        ctx.count(f"{tag}:aux:k=-1:radius_of_result={'none' if r is None else min(r, 6)}")
+        ctx.count(f"{tag}:aux:k=-1:{'whole ITS' if len(Km1) == len(its) else 'proper part of the ITS'}")
+        why = need[0] if need[0] is not None else free_radius_compare(Km1, need[1], model[need[1]])
+        if why:
+            ctx.violation("extract_k(its, -1) is not a distance ball around the reaction centre",
+                          shrink_aux(ctx, dict(case, aux="k=-1"), lambda J: free_radius_verdict(ctx, J, enc(J), impl_k(J, -1), ctx.lean().ok([{"cmd": "its.rc", "its": enc(J)}])[0])),
+                          {"why": why})
+            continue
+        # (2) dict wrappers, non-default keys
+        bad = None
+        for how, got, keys in (("context_extraction", ce, ckeys), ("paralle_context_extraction", pa, pkeys)):
+            for k, K in got.items():
+                nk, ek = (RC_KEYS, RC_EDGE_KEYS) if k == 0 else (ITS_NODE_KEYS, ITS_EDGE_KEYS)
+                x, y = canon(enc(K), nk, ek), canon(model[k], nk, ek)
+                ctx.count(f"{tag}:aux:{how}:k={k}")
+                ctx.count(f"{tag}:aux:{how}:keys={keys[0]}/{keys[1]}")
+                if x != y and bad is None:
+                    bad = (how, k, keys, first_diff(x, y))
+        if bad:
+            how, k, keys, diff = bad
+            ctx.violation(f"{how}(n_knn={k}) does not return the radius-{k} context of the model (distance ball around the centre)",
+                          dict(case, aux=how, n_knn=k, keys=list(keys)), {"diff": diff})
+            continue
+        # (3) atoms of the changed bonds
+        if wf_its(its):
+            want = changed_endpoints(m_rc)
+            ctx.count(f"{tag}:aux:unequal_order_atoms={min(len(want), 6)}")
+            if set(fu) != want:
+                ctx.violation("find_unequal_order_edges is not the set of atoms incident to the bonds whose order differs",
+                              shrink_aux(ctx, dict(case, aux="unequal"), lambda J: wf_its(J) and set(impl_unequal(J)) != changed_endpoints(ctx.lean().ok([{"cmd": "its.rc", "its": enc(J)}])[0])),
+                              {"impl": sorted(fu)[:12], "model": sorted(want)[:12]})
+        else:
+            ctx.count(f"{tag}:aux:unequal_order:not-gated(ill-formed ITS)")
+
+
+def shrink_aux(ctx, case, bad):
+    its = graphio.to_nx(case["its"])
+    if len(its) > 12:
+        return case
+
+    def isbad(J):
+        try:
+            return bool(bad(J))
+        except Exception:
+            return False
+
+    changed = True
+    while changed and len(its) > 1:
+        changed = False
+        for n in sorted(its.nodes):
+            J = its.copy()
+            J.remove_node(n)
+            if isbad(J):
+                its, changed = J, True
+                break
+    out = dict(case)
+    out["its"] = enc(its)
+    return out
+
+
+# ---- rsmi_to_its(core=True)
+GRAPH_OPTS = ("drop_non_aam", "sanitize", "use_index_as_atom_map", "node_attrs", "edge_attrs")
+ENTRY_OPTS = [
+    {}, {}, {"explicit_hydrogen": True}, {"explicit_hydrogen": True},
+    {"sanitize": False}, {"drop_non_aam": False}, {"use_index_as_atom_map": False},
+    {"explicit_hydrogen": True, "sanitize": False},
+    {"drop_non_aam": False, "use_index_as_atom_map": False},
+    {"node_attrs": ["element", "aromatic", "hcount", "charge", "neighbors", "atom_map", "isomer"]},
+    {"node_attrs": ["element", "aromatic", "hcount", "charge", "neighbors", "atom_map", "radical"], "explicit_hydrogen": True},
+]
+
+
+def impl_rsmi_to_its(rsmi, **kw):
+    from synkit.IO.chem_converter import rsmi_to_its
+    return rsmi_to_its(rsmi, **kw)
+
+
+def entry_cases(ctx, items, tag):
+    """items: list of (rsmi, options, meta).  rsmi_to_its(rsmi, core=True, **options) must be the centre of the ITS of that
+    reaction: (i) == model getRc of the ITS the same call returns with core=False; (ii) without hydrogen expansion also
+    == model getRc of the MODEL's ITS (its.construct) of the two graphs rsmi_to_graph parses under the same options."""
+    from synkit.IO.chem_converter import rsmi_to_graph
+    keep, reqs = [], []
+    for rsmi, opts, meta in items:
+        okey = json.dumps(opts, sort_keys=True)
+        try:
+            full = impl_rsmi_to_its(rsmi, core=False, **opts)
+            F0 = enc(full)
+        except Exception as e:
+            ctx.count(f"{tag}:skipped:no ITS for this reaction/options:{type(e).__name__}")
+            continue
+        case = {"stream": tag, "rsmi": rsmi, "options": opts, "meta": meta}
+        try:
+            core = impl_rsmi_to_its(rsmi, core=True, **opts)
+            core2 = impl_rc(core)
+            C0 = enc(core)
+        except Exception as e:
+            ctx.violation("rsmi_to_its(core=True) raises where core=False returns an ITS", case, {"error": repr(e)[:300]})
+            continue
+        pair = None
+        if not opts.get("explicit_hydrogen"):
+            try:
+                r, p = rsmi_to_graph(rsmi, **{k: v for k, v in opts.items() if k in GRAPH_OPTS})
+                if r is not None and p is not None and len(r) and set(r.nodes) == set(p.nodes):
+                    pair = (enc(r), enc(p))
+            except Exception:
+                pair = None
+        keep.append((case, okey, full, F0, core, C0, core2, pair, len(reqs)))
+        reqs.append({"cmd": "its.rc", "its": F0})
+        if pair:
+            reqs.append({"cmd": "its.construct", "G": pair[0], "H": pair[1]})
+    reps = ctx.lean().ok(reqs, shards=8)
+    second, where = [], {}
+    for idx, (case, okey, full, F0, core, C0, core2, pair, at) in enumerate(keep):
+        if pair and "graph" in reps[at + 1]:
+            where[idx] = len(second)
+            second.append({"cmd": "its.rc", "its": reps[at + 1]["graph"]})
+    reps2 = ctx.lean().ok(second, shards=8) if second else []
+    for idx, (case, okey, full, F0, core, C0, core2, pair, at) in enumerate(keep):
+        if len(ctx.violations) >= 6:
+            return
+        m_rc = reps[at]
+        nt = len(core) >= 2 and len(full) > len(core)
+        ctx.case(["entry", case["rsmi"], okey], nt)
+        ctx.count(f"{tag}:cases")
+        ctx.count(f"{tag}:options={okey}")
+        ctx.count(f"{tag}:rc_edges={min(core.number_of_edges(), 5)}")
+        if any(full.nodes[u].get("element") == "H" and full.nodes[v].get("element") == "H" for u, v in core.edges):
+            ctx.count(f"{tag}:with_HH_bond")
+        a, b = canon(C0, RC_KEYS, RC_EDGE_KEYS), canon(m_rc, RC_KEYS, RC_EDGE_KEYS)
+        if a != b:
+            spec = ctx.lean().ok([{"cmd": "spec.its.rc", "its": F0, "rc": C0}])[0]
+            ctx.violation("rsmi_to_its(core=True) is not the reaction centre of the ITS of the same reaction (model getRc of rsmi_to_its(core=False))",
+                          case, {"diff": first_diff(a, b), "spec_rc_holds": spec}, no_input=bool(spec))
+            continue
+        if canon(enc(core2), RC_KEYS, RC_EDGE_KEYS) != a:
+            ctx.violation("extracting the centre of rsmi_to_its(core=True) changes it", case)
+            continue
+        if idx in where:
+            ctx.count(f"{tag}:model-chain(rsmi_to_graph -> its.construct -> its.rc)")
+            c = canon(reps2[where[idx]], RC_KEYS, RC_EDGE_KEYS)
+            if c != a:
+                same_its = canon(F0, ITS_NODE_KEYS, ITS_EDGE_KEYS) == canon(reps[at + 1]["graph"], ITS_NODE_KEYS, ITS_EDGE_KEYS)
+                ctx.violation("rsmi_to_its(core=True) is not the model centre of the model ITS of the graphs rsmi_to_graph parses under the same options",
+                              case, {"diff": first_diff(a, c), "rsmi_to_its(core=False) == model ITS": same_its}, no_input=True)
+        elif pair:
+            ctx.count(f"{tag}:model-chain:its.construct undefined")
+        else:
+            ctx.count(f"{tag}:model-chain:not applicable (hydrogen expansion / unbalanced / unparsed)")
+
+
+def entry_items(ctx, n_reactions):
+    recs = load_reactions()
+    chosen = recs if n_reactions is None else ctx.rnd.sample(recs, n_reactions)
+    items = []
+    for rec in chosen:
+        kinds = ["identity", ctx.rnd.choice(["renumber", "renumber_sparse", "reverse", "shuffle"]), ctx.rnd.choice(["spectator_h", "spectator_h", "free_h"])]
+        for kind in kinds:
+            try:
+                v = base.variant(rec["rsmi"], kind, ctx.rnd)
+            except ValueError:                                  # not of the form reactants>>products
+                v = None
+            if v is None:
+                ctx.count("entry:variant-not-applicable:" + kind)
+                continue
+            optsets = [{}, {"explicit_hydrogen": True}] if kind == "identity" else []
+            optsets.append(ctx.rnd.choice(ENTRY_OPTS))
+            if n_reactions is None:
+                optsets.append(ctx.rnd.choice(ENTRY_OPTS))
+            seen = set()
+            for o in optsets:
+                k = json.dumps(o, sort_keys=True)
+                if k in seen:
+                    continue
+                seen.add(k)
+                ctx.count("entry:variant:" + kind)
+                items.append((v, dict(o), {"src": rec["src"], "idx": rec["idx"], "variant": kind}))
+    return items
+
+
+def rename_edge_keys(its, bond_key, standard_key):
+    J = its.copy()
+    for _, _, d in J.edges(data=True):
+        if "order" in d:
+            d[bond_key] = d.pop("order")
+        if "standard_order" in d:
+            d[standard_key] = d.pop("standard_order")
+    return J
 
 
 # ------------------------------------------------------------------ generators
@@ -325,6 +698,27 @@ def relabel(its, rnd):
     return nx.relabel_nodes(its, dict(zip(ns, new)), copy=True)
 
 
+def hh_without_typesgh(rnd):
+    """A random molecule-like ITS plus one H-H pair (bond unchanged / formed / broken / order kept at 1) whose hydrogen
+    atoms lack `typesGH` (one or both): the documented fallback of the H-H pass of get_rc."""
+    G, H, tags = base.random_pair(rnd, 7)
+    a = max(G.nodes) + 1
+    b = a + 1
+    for X in (G, H):
+        for n in (a, b):
+            X.add_node(n, element="H", aromatic=False, hcount=0, charge=0, neighbors=["H"], atom_map=n)
+    how = rnd.choice(["unchanged", "unchanged", "unchanged", "formed", "broken"])
+    if how != "formed":
+        G.add_edge(a, b, order=1.0)
+    if how != "broken":
+        H.add_edge(a, b, order=1.0)
+    its = base.impl_its(G, H)
+    drop = rnd.choice([(a,), (b,), (a, b)])
+    for n in drop:
+        its.nodes[n].pop("typesGH", None)
+    return its, {"edits": tags, "hh": how, "typesGH_dropped": len(drop)}
+
+
 def corpus_stream(ctx, per_variant):
     recs = load_reactions()
     cases, isos = [], []
@@ -361,19 +755,36 @@ def run(ctx):
         "RDKit + MolToGraph only as the source of corpus ITS graphs (inputs); NetworkX Graph semantics (no parallel edges)",
     ]
     ctx.assumptions = ["'ITS labels' of a centre atom = element, charge, typesGH, atom_map (DESIGN 5a)",
-                       "extract_k with n_knn = -1 (longest-extension mode) is outside C02 (radii 0..3) and not modelled"]
+                       "extract_k with n_knn = -1: the radius the code picks (length of its longest unchanged-bond extension) is not fixed by C02 and not "
+                       "modelled; gated is only what C02 states for any radius: the result contains the centre and equals the model's radius-r context "
+                       "(Lean its.extractK) for r = distance of its farthest atom from the centre (breadth-first search in the harness), or is the centre itself",
+                       "find_unequal_order_edges is gated only on ITS whose bonds satisfy standard_order == order[0] - order[1] (Lean WFits): == atoms incident "
+                       "to the bonds of the MODEL centre whose two orders differ (unchanged H-H bonds are not 'unequal order' bonds)",
+                       "context_extraction / paralle_context_extraction (n_jobs=1, non-default dictionary keys) must return exactly extract_k's context: "
+                       "compared with the model centre (k=0) / model its.extractK (k=1..3)",
+                       "rsmi_to_its(core=True, options): the ITS handed to the model is the one the same call returns with core=False (ITS construction is "
+                       "C01's subject); without hydrogen expansion additionally the chain rsmi_to_graph -> Lean its.construct -> Lean its.rc, so that the "
+                       "expected centre does not pass through ITSConstruction or get_rc at all",
+                       "get_rc(bond_key=, standard_key=): the ITS carries its bond attributes under those names (harness renames them); expected = model with "
+                       "the same options, and = model centre of the un-renamed ITS"]
     ctx.gen_rule = ("regressions first; ITS graphs of the vendored corpus reactions (ecoli, USPTO sample, hydrogen set) and of a dense and a sparse "
                     "atom-map renumbering of each, plus the 50 stored hydrogen-set ITS graphs (quick: 40 reactions + 10 stored); ALL ITS on n<=3 atoms "
                     "(3 element patterns over {C,H}, per-pair order pairs {0,1,2}^2) (thorough: also n=4 with pairs from {00,11,10,01,12}); random "
                     "molecule-like ITS n<=9 built from (G,H) pairs with <=3 edits, incl. H-H bonds, each also with one attribute-level edit "
                     "(standard_order missing/None/str/True/zeroed/int, typesGH or element missing, is_mtg flags) and under a random injective "
-                    "relabelling; get_rc options (keep_mtg, disconnected, element_key) compared impl==model.")
+                    "relabelling; 30 (thorough 400) random ITS with an added H-H pair (bond unchanged/formed/broken) whose hydrogens lack typesGH; get_rc options (keep_mtg, disconnected, element_key, bond_key/standard_key with renamed bond attributes) compared impl==model. "
+                    "Every ITS of the corpus / exhaustive (n=4: a sample of 8000) / random streams (<=160 atoms) is also sent through extract_k(-1), find_unequal_order_edges, "
+                    "context_extraction (k drawn from 0..3, dictionary keys drawn from 3 pairs) and, in chunks of 20, paralle_context_extraction (one k and "
+                    "key pair per chunk). Entry stream: corpus reactions (quick 36, thorough all) as written, under one of renumber/renumber_sparse/reverse/"
+                    "shuffle, and with unchanged explicit-hydrogen spectators (H-H, water, ammonia, HCl) or one H-X bond cut to a free hydrogen; "
+                    "rsmi_to_its(core=True) with default options and explicit_hydrogen=True on the identity form plus one option set drawn from "
+                    "{explicit_hydrogen, sanitize=False, drop_non_aam=False, use_index_as_atom_map=False, extra node_attrs} per form (thorough: two).")
     ctx.nontrivial_rule = "distinct encoded ITS with a centre of >=2 atoms and at least one atom outside the centre"
     build_and_audit(ctx, ["SynKitProofs.Props.C02"], "SynKitProofs/Audit/C02.lean", THEOREMS)
 
     for c in base.load_regress("C02"):
         c = c.get("case", c)
-        its_cases(ctx, [(graphio.to_nx(c["its"]), c.get("meta"))], "regress")
+        _replay_one(ctx, c, "regress")
         ctx.count("regress_cases")
 
     if not ctx.violations:
@@ -381,12 +792,19 @@ def run(ctx):
         its_cases(ctx, cases, "corpus")
         if not ctx.violations:
             iso_cases(ctx, isos, "corpus")
+        if not ctx.violations:
+            aux_cases(ctx, cases, "corpus")
+    if not ctx.violations:
+        entry_cases(ctx, entry_items(ctx, 36 if ctx.quick else None), "entry")
     if not ctx.violations:
         full = [(0, 0), (0, 1), (0, 2), (1, 0), (1, 1), (1, 2), (2, 0), (2, 1), (2, 2)]
         ex = [(I, {"n": n}) for n in (1, 2, 3) for I in exhaustive_its(n, full)]
         if not ctx.quick:
             ex += [(I, {"n": 4}) for I in exhaustive_its(4, [(0, 0), (1, 1), (1, 0), (0, 1), (1, 2)])]
         its_cases(ctx, ex, "exhaustive")
+        if not ctx.violations:
+            n4 = [c for c in ex if c[1]["n"] == 4]
+            aux_cases(ctx, [c for c in ex if c[1]["n"] <= 3] + (ctx.rnd.sample(n4, 8000) if len(n4) > 8000 else n4), "exhaustive")
         ctx.extra["exhaustive"] = True
         ctx.extra["exhaustive_part"] = "all ITS on n<=3 atoms x 3 element patterns x order pairs {0,1,2}^2" + ("" if ctx.quick else "; n=4 with 5 order pairs")
     if not ctx.violations:
@@ -407,8 +825,17 @@ def run(ctx):
                 o["disconnected"] = True
             if ctx.rnd.random() < 0.3:
                 o["element_key"] = ctx.rnd.choice([["element"], ["element", "charge", "atom_map"], ["typesGH"], ["element", "hcount", "aromatic", "typesGH"]])
+            if ctx.rnd.random() < 0.3:
+                o.update(ctx.rnd.choice([{"bond_key": "bo", "standard_key": "so"}, {"bond_key": "bond"}, {"standard_key": "delta"}]))
             opts.append((its_m, o))
+        for _ in range(30 if ctx.quick else 400):
+            its_h, meta = hh_without_typesgh(ctx.rnd)
+            ctx.count("random:hh_without_typesGH:" + meta["hh"])
+            rc_cases.append((its_h, meta))
+            opts.append((its_h, {"disconnected": True} if ctx.rnd.random() < 0.5 else {"element_key": ["element", "atom_map"]}))
         its_cases(ctx, rc_cases, "random")
+        if not ctx.violations:
+            aux_cases(ctx, rc_cases, "random")
         if not ctx.violations:
             iso_cases(ctx, isos, "random")
         if not ctx.violations:
@@ -417,15 +844,38 @@ def run(ctx):
                    "centre of renumbered reaction iso centre (Lean match.iso)", not ctx.violations)
 
 
-def replay(ctx, case):
-    base.quiet()
-    c = case["case"]
-    if "its" in c and "relabelled" not in c:
-        its_cases(ctx, [(graphio.to_nx(c["its"]), c.get("meta"))], "replay")
+def _replay_one(ctx, c, tag):
+    if "rsmi" in c and "options" in c:
+        entry_cases(ctx, [(c["rsmi"], c["options"], c.get("meta"))], tag)
+    elif "its" in c and "options" in c:
+        its = graphio.to_nx(c["its"])
+        o = c["options"]
+        options_cases(ctx, [(rename_edge_keys_back(its, o.get("bond_key", "order"), o.get("standard_key", "standard_order")), o)], tag)
+    elif "its" in c and "relabelled" not in c:
+        its = graphio.to_nx(c["its"])
+        its_cases(ctx, [(its, c.get("meta"))], tag)
+        if not ctx.violations:
+            aux_cases(ctx, [(its, c.get("meta"))], tag, all_params=True)
     elif "relabelled" in c and "its" in c:
         a, b = graphio.to_nx(c["its"]), graphio.to_nx(c["relabelled"])
-        iso_cases(ctx, [(impl_rc(a), impl_rc(b), c)], "replay")
+        iso_cases(ctx, [(impl_rc(a), impl_rc(b), c)], tag)
     elif "rsmi" in c:
         r, p, _ = base.reaction_graphs(c["rsmi"])
         r2, p2, _ = base.reaction_graphs(c["renumbered"])
-        iso_cases(ctx, [(impl_rc(base.impl_its(r, p)), impl_rc(base.impl_its(r2, p2)), c)], "replay")
+        iso_cases(ctx, [(impl_rc(base.impl_its(r, p)), impl_rc(base.impl_its(r2, p2)), c)], tag)
+
+
+def rename_edge_keys_back(its, bond_key, standard_key):
+    """Inverse of rename_edge_keys (a stored options case holds the ITS as it was handed to get_rc)."""
+    J = its.copy()
+    for _, _, d in J.edges(data=True):
+        if bond_key != "order" and bond_key in d:
+            d["order"] = d.pop(bond_key)
+        if standard_key != "standard_order" and standard_key in d:
+            d["standard_order"] = d.pop(standard_key)
+    return J
+
+
+def replay(ctx, case):
+    base.quiet()
+    _replay_one(ctx, case["case"], "replay")
